@@ -4,6 +4,23 @@ import XmppModel.Model.Sasl
 namespace XmppModel.Driver.C03
 open XmppModel XmppModel.Sasl
 
+/-- mechanism names travel as themselves when made of `[A-Za-z0-9_.+-]` (and not `-`),
+otherwise as `%` followed by the hex of their UTF-8 bytes -/
+def plainNameChar (c : Char) : Bool :=
+  c.isAlphanum || c = '_' || c = '.' || c = '+' || c = '-'
+
+def encName (n : String) : String :=
+  if n != "-" && !n.isEmpty && n.toList.all plainNameChar then n
+  else "%" ++ (if n.isEmpty then "" else hexEncodeStr n)
+
+def decName (f : String) : Option String :=
+  if f.startsWith "%" then
+    let h := (f.drop 1).toString
+    if h.isEmpty then some "" else hexDecodeStr h
+  else some f
+
+def decNames (f : String) : Option (List String) := mapM? decName (splitList f)
+
 def parsePayload (s : String) : Option Payload :=
   if s == "-" then some .empty
   else if s == "eq" then some .eq
@@ -61,13 +78,16 @@ def parseSEv (s : String) : Option SEv :=
   else if s == "W" then some .space
   else if s.startsWith "A" then
     match ((s.drop 1).toString).splitOn "/" with
-    | [m, p] => (parsePayload p).map (.auth m)
+    | [m, p] => do
+      let name ← decName m
+      let pl ← parsePayload p
+      pure (.auth name pl)
     | _ => none
   else if s.startsWith "R" then (parsePayload (s.drop 1).toString).map .response
   else none
 
 def showCSent : CSent → String
-  | .auth m r => s!"auth/{m}/{showEq r}"
+  | .auth m r => s!"auth/{encName m}/{showEq r}"
   | .response r => s!"resp/{showEq r}"
 
 def showSSent : SSent → String
@@ -87,31 +107,42 @@ def parsePerm (s : String) : Option (Bytes → Bytes → Bytes → Bool) :=
       pure fun user pass _ => user == u && pass == p
     | _ => none
 
+def optNat (s : String) : Option (Option Nat) :=
+  if s == "-" then some none else s.toNat?.map some
+
+def handleCli (budget cancel cm adv steps peer : String) : Option String := do
+  let b ← optNat budget
+  let k ← optNat cancel
+  let script ← mapM? parseStep (splitList steps)
+  let evs ← mapM? parseCEv (splitList peer)
+  let names ← decNames cm
+  let advs ← decNames adv
+  let mechs := names.map fun n => (n, scriptMech script 0)
+  let r := if b.isNone && k.isNone then clientNeg mechs advs evs else clientNegE ⟨b, k⟩ mechs advs evs
+  pure s!"{showBool r.authn} {r.err.toString} {(r.used.map encName).getD "-"} {joinList (r.sent.map showCSent)} {joinList (r.hist.map showBytes)}"
+
+def handleSrv (allScripted : Bool) (budget : Option Nat) (sm steps perm peer : String) : Option String := do
+  let script ← mapM? parseStep (splitList steps)
+  let evs ← mapM? parseSEv (splitList peer)
+  let pf ← parsePerm perm
+  let names ← decNames sm
+  let mechs := names.map fun n =>
+    if n == "PLAIN" && !allScripted then (n, plainServer pf) else (n, scriptMech script 1)
+  let r := match budget with
+    | none => serverSession mechs evs
+    | some b => serverSessionW mechs b evs
+  pure s!"{showBool r.authn} {r.err.toString} {joinList (r.sent.map showSSent)} {joinList (r.perms.map showPerm)}"
+
 def handle (args : List String) : Option String :=
   match args with
-  | ["cli", cm, adv, steps, peer] => do
-    let script ← mapM? parseStep (splitList steps)
-    let evs ← mapM? parseCEv (splitList peer)
-    let mechs := (splitList cm).map fun n => (n, scriptMech script 0)
-    let r := clientNeg mechs (splitList adv) evs
-    pure s!"{showBool r.authn} {r.err.toString} {r.used.getD "-"} {joinList (r.sent.map showCSent)} {joinList (r.hist.map showBytes)}"
-  | ["srv", sm, steps, perm, peer] => do
-    let script ← mapM? parseStep (splitList steps)
-    let evs ← mapM? parseSEv (splitList peer)
-    let pf ← parsePerm perm
-    let mechs := (splitList sm).map fun n =>
-      if n == "PLAIN" then (n, plainServer pf) else (n, scriptMech script 1)
-    let r := serverSession mechs evs
-    pure s!"{showBool r.authn} {r.err.toString} {joinList (r.sent.map showSSent)} {joinList (r.perms.map showPerm)}"
+  | ["cli", cm, adv, steps, peer] => handleCli "-" "-" cm adv steps peer
+  | ["clis", cm, adv, steps, peer] => handleCli "-" "-" cm adv steps peer
+  | ["clie", budget, cancel, cm, adv, steps, peer] => handleCli budget cancel cm adv steps peer
+  | ["srv", sm, steps, perm, peer] => handleSrv false none sm steps perm peer
+  | ["srvs", sm, steps, perm, peer] => handleSrv true none sm steps perm peer
   | ["srvw", n, sm, steps, perm, peer] => do
     let budget ← n.toNat?
-    let script ← mapM? parseStep (splitList steps)
-    let evs ← mapM? parseSEv (splitList peer)
-    let pf ← parsePerm perm
-    let mechs := (splitList sm).map fun n =>
-      if n == "PLAIN" then (n, plainServer pf) else (n, scriptMech script 1)
-    let r := serverSessionW mechs budget evs
-    pure s!"{showBool r.authn} {r.err.toString} {joinList (r.sent.map showSSent)} {joinList (r.perms.map showPerm)}"
+    handleSrv false (some budget) sm steps perm peer
   | _ => none
 
 end XmppModel.Driver.C03
